@@ -53,9 +53,45 @@ def chain_case(rnd, idx):
     return {"id": cid, "files": files, "main": main, "search": ["d1"], "env": None, "root": root}
 
 
+def clean_case(rnd, idx):
+    """an arrangement in which every include resolves to a readable, syntactically clean file (so that the include
+    run and the spliced run are always comparable): 1-4 files in one search directory, some under `lib/`, names that
+    collide by suffix or look like the standard library, nested includes, annotations and pragmas in front of includes,
+    the same file included twice"""
+    cid = f"c{idx}"
+    root = f"{BASE}/{cid}"
+    pool = ["a.inc", "b.inc", "lib/a.inc", "lib/stdgates.inc", "e_stdgates.inc", "c.inc"]
+    names = rnd.sample(pool, rnd.randint(1, 4))
+    files = {}
+    for j, n in enumerate(names):
+        v = "v%d" % j
+        body = [f"int {v} = {j};", rnd.choice([f"qubit q{j};", f"gate g{j} a {{ }}", f"float {v}f = {v};", f"bit {v}b = undeclared_{j};"])]
+        later = names[j + 1:]
+        if later and rnd.random() < 0.4:
+            body.insert(rnd.randint(0, 2), f'include "{rnd.choice(later)}";')
+        if rnd.random() < 0.2:
+            body.insert(0, f"@infile {j}")
+        files[f"d1/{n}"] = "\n".join(body) + "\n"
+    main = ["int m0 = 0;"]
+    for _ in range(rnd.randint(1, 4)):
+        r = rnd.random()
+        if r < 0.25:
+            main.append(f"@note {rnd.randint(1, 9)}")
+        elif r < 0.35:
+            main.append(f"pragma p{rnd.randint(1, 9)}")
+        n = rnd.choice(names)
+        main.append(rnd.choice([f'include "{n}";', f'include "{n}";', 'include "stdgates.inc";', f'include "{root}/d1/{n}";']))
+        if rnd.random() < 0.6:
+            main.append(f"int m{len(main)} = {len(main)};")
+    return {"id": cid, "files": files, "main": "\n".join(main) + "\n", "search": ["d1"], "env": None, "root": root}
+
+
 def gen_case(rnd, idx):
-    if rnd.random() < 0.12:
+    r0 = rnd.random()
+    if r0 < 0.12:
         return chain_case(rnd, idx)
+    if r0 < 0.37:
+        return clean_case(rnd, idx)
     cid = f"c{idx}"
     root = f"{BASE}/{cid}"
     files = {}
@@ -166,7 +202,7 @@ def splice(case, text, depth=0):
 
 def check(ctx):
     C.extract(ctx)
-    C.prove(ctx, ["Oq3.Props.C18", "Oq3.Props.C18Frame", "Oq3.Props.C18Mono", "Oq3.Props.C18Equiv"])
+    C.prove(ctx, ["Oq3.Props.C18", "Oq3.Props.C18Frame", "Oq3.Props.C18Mono", "Oq3.Props.C18Equiv", "Oq3.Props.C18Conv", "Oq3.Props.C18MonoErr", "Oq3.Props.C18Panic"])
     okb, log = C.cargo_build()
     if not okb:
         C.violation(ctx, "harness-build-failed", {"log": log[-3000:]}, no_input=True)
